@@ -87,10 +87,49 @@ func readAll(format string, bufsize int, b []byte) (recs []rec, single bool, err
 		one(utils.FORMAT_NEXTSTRAIN)
 	case "nextstrainm":
 		multi(utils.FORMAT_NEXTSTRAIN)
+	case "bad":
+		// a format code that is none of the four constants: the `default` branch of ReadTreeReader
+		single = true
+		one(7)
+	case "badm":
+		multi(-1)
 	default:
 		err = fmt.Errorf("unknown format")
 	}
 	return
+}
+
+// writeBack: the three writers on a delivered tree; class ok | panic:<msg>, then the α dump and the texts
+func writeBack(t *tree.Tree) string {
+	if t == nil || t.Root() == nil {
+		return ""
+	}
+	dump := ""
+	if p, _ := core.Safe(func() {
+		n, wf := core.Alpha(t)
+		if wf.OK() {
+			dump = n.Dump()
+		}
+	}); p || dump == "" {
+		return ""
+	}
+	var nw, nx, px string
+	class := "ok"
+	p, msg := core.Safe(func() {
+		nw = t.Newick()
+		nx = t.Nexus()
+		wch := make(chan tree.Trees, 1)
+		wch <- tree.Trees{Tree: t, Id: 0}
+		close(wch)
+		var werr error
+		if px, werr = phyloxml.WritePhyloXML(wch); werr != nil {
+			class = "err"
+		}
+	})
+	if p {
+		class = "panic%3A" + core.Escape(msg)
+	}
+	return class + ":" + dump + ":" + core.Escape(nw) + ":" + core.Escape(nx) + ":" + core.Escape(px) + "|"
 }
 
 // useTree traverses, indexes and writes a delivered tree.  Returns the class
@@ -389,88 +428,15 @@ func decoded(format string, b []byte) string {
 		if err := xml.Unmarshal(b, px); err != nil {
 			return "E"
 		}
-		return encPx(px)
+		return encPx(pxFromReal(px))
 	case "nextstrain", "nextstrainm":
 		ns := &nextstrain.Nextstrain{}
 		if err := json.Unmarshal(b, ns); err != nil {
 			return "E"
 		}
-		return encNs(ns)
+		return encNs(nsFromReal(ns))
 	}
 	return ""
-}
-
-// encPx serialises a decoded PhyloXML document for the driver.
-func encPx(px *phyloxml.PhyloXML) string {
-	optRat := func(p *float64) string {
-		if p == nil {
-			return "-"
-		}
-		return core.Rat(*p)
-	}
-	var sb strings.Builder
-	sb.WriteString("X")
-	var rec func(c *phyloxml.Clade)
-	rec = func(c *phyloxml.Clade) {
-		fmt.Fprintf(&sb, "( n%s s%s c%s l%s f%s ", core.Escape(c.Name), core.Escape(c.Tax.ScientificName), core.Escape(c.Tax.Code), optRat(c.BranchLength), optRat(c.Confidence))
-		for i := range c.Clades {
-			rec(&c.Clades[i])
-		}
-		sb.WriteString(") ")
-	}
-	for i := range px.Phylogenies {
-		rec(&px.Phylogenies[i].Root)
-		sb.WriteString("|")
-	}
-	return sb.String()
-}
-
-// encNs serialises a decoded Nextstrain document for the driver.
-func encNs(ns *nextstrain.Nextstrain) string {
-	var sb strings.Builder
-	sb.WriteString("V" + core.Escape(ns.Version) + " ")
-	var rec func(c *nextstrain.NsNode)
-	rec = func(c *nextstrain.NsNode) {
-		cm := nsComment(c)
-		if cm == "" {
-			cm = "-"
-		} else {
-			cm = "k" + core.Escape(cm)
-		}
-		fmt.Fprintf(&sb, "( n%s d%s %s ", core.Escape(c.Name), core.Rat(c.Attributes.Divergence), cm)
-		for i := range c.Children {
-			rec(&c.Children[i])
-		}
-		sb.WriteString(") ")
-	}
-	rec(&ns.Tree)
-	return sb.String()
-}
-
-// nsComment rebuilds the annotation comment of nextstrain.cladeToTree (string surgery only).
-func nsComment(c *nextstrain.NsNode) string {
-	clean := func(s string) string {
-		s = strings.Replace(s, ":", ".", -1)
-		s = strings.Replace(s, " ", "", -1)
-		return strings.Replace(s, ",", "-", -1)
-	}
-	var parts []string
-	if c.BranchAttr.Labels.Aa != "" {
-		parts = append(parts, "mutations="+clean(c.BranchAttr.Labels.Aa))
-	}
-	if c.Attributes.Accession != "" {
-		parts = append(parts, "accession="+clean(c.Attributes.Accession))
-	}
-	if c.Attributes.Country.Value != "" {
-		parts = append(parts, "country="+clean(c.Attributes.Country.Value))
-	}
-	if c.Attributes.Date.Value != 0.0 {
-		parts = append(parts, "date="+fmt.Sprintf("%f", c.Attributes.Date.Value))
-	}
-	if len(parts) == 0 {
-		return ""
-	}
-	return "&" + strings.Join(parts, ",")
 }
 
 // handle executes one request line of the parent in the child.
@@ -501,6 +467,26 @@ func handle(line string) string {
 			fmt.Fprintf(&sb, "%d:tree:%s:%s|", r.id, class, dump)
 		}
 		return out + "\t" + sb.String() + "\t" + decoded(f[1], []byte(in))
+	case "wb":
+		if len(f) != 3 {
+			return "bad"
+		}
+		in, err := core.Unescape(f[2])
+		if err != nil {
+			return "bad"
+		}
+		recs, _, rerr := readAll(f[1], 0, []byte(in))
+		out := "ok"
+		if rerr != nil {
+			out = "err"
+		}
+		var sb strings.Builder
+		for _, r := range recs {
+			if r.err == nil && r.tree != nil && len(r.tree.Nodes()) <= 300 {
+				sb.WriteString(writeBack(r.tree))
+			}
+		}
+		return out + "\t" + sb.String()
 	case "scale":
 		// scaling probe: time of the reader alone on a document of the given kind and size
 		if len(f) != 3 {
